@@ -51,6 +51,10 @@ static inline BA ba_lit(const char *s, int len) { BA r = ba_empty(); MODEL_LIMIT
 static inline BA qs_as_ba(QS x) { BA r; r.n = x.n; for (int i = 0; i < TERM_L; i++) r.a[i] = x.a[i]; return r; }
 static inline QS ba_as_qs(BA x) { QS r; r.n = x.n; for (int i = 0; i < TERM_L; i++) r.a[i] = x.a[i]; return r; }
 
+/* an input about which nothing is known: the empty string or one opaque chunk */
+static inline bool ba_opaque(BA x) { return ba_wf(x) && x.n <= 1 && (x.n == 0 || x.a[0] > 256); }
+static inline bool qs_opaque(QS x) { return ba_opaque(qs_as_ba(x)); }
+
 /* ---- free constructors */
 int __CPROVER_uninterpreted_t_id(BA x);                          /* hash-consing: the identity of a non-empty sequence */
 int __CPROVER_uninterpreted_t_hmac(int alg, int key, int msg);
@@ -61,31 +65,30 @@ int __CPROVER_uninterpreted_t_b64dec(int x);
 bool __CPROVER_uninterpreted_t_b64dec_empty(int x);             /* base64 text that decodes to nothing (e.g. "=") */
 int __CPROVER_uninterpreted_t_hex(int x);
 int __CPROVER_uninterpreted_t_xor(int x, int y);
-int __CPROVER_uninterpreted_t_utf8(int chunk);
 int __CPROVER_uninterpreted_t_toInt(int x);
 int __CPROVER_uninterpreted_t_hashlen(int alg);
 int __CPROVER_uninterpreted_t_alen(int atom);                    /* byte length of an opaque chunk */
 bool __CPROVER_uninterpreted_t_startsWith(int a, int b);
-static inline int ba_id(BA x) { return x.n == 0 ? 0 : __CPROVER_uninterpreted_t_id(x); }
+/* identity of a value: 0 for the empty string, the atom itself for a one-atom value, hash-consed otherwise
+   (a cheaper encoding of the same free reading: nothing forces two different values to have different identities) */
+static inline int ba_id(BA x) { return x.n == 0 ? 0 : x.n == 1 ? x.a[0] : __CPROVER_uninterpreted_t_id(x); }
 /* the terms, as sequences (one opaque atom) -- used by the models below AND by the specifications */
 static inline BA T_HMAC(int alg, BA key, BA msg) { return ba_atom(__CPROVER_uninterpreted_t_hmac(alg, ba_id(key), ba_id(msg))); }
 static inline BA T_H(int alg, BA data) { return ba_atom(__CPROVER_uninterpreted_t_hash(alg, ba_id(data))); }
 static inline BA T_Hi(int alg, BA pw, BA salt, int it, unsigned long long dklen) { return ba_atom(__CPROVER_uninterpreted_t_pbkdf2(alg, ba_id(pw), ba_id(salt), it, dklen)); }
 static inline BA T_B64(BA x) { return x.n == 0 ? ba_empty() : ba_atom(__CPROVER_uninterpreted_t_b64(ba_id(x))); }
-static inline BA T_B64DEC(BA x) { return (x.n == 0 || __CPROVER_uninterpreted_t_b64dec_empty(ba_id(x))) ? ba_empty() : ba_atom(__CPROVER_uninterpreted_t_b64dec(ba_id(x))); }
+static inline BA T_B64DEC(BA x) { int i = ba_id(x); return (x.n == 0 || __CPROVER_uninterpreted_t_b64dec_empty(i)) ? ba_empty() : ba_atom(__CPROVER_uninterpreted_t_b64dec(i)); }
 static inline BA T_HEX(BA x) { return x.n == 0 ? ba_empty() : ba_atom(__CPROVER_uninterpreted_t_hex(ba_id(x))); }
 /* XOR is commutative: the operands are ordered by id before the constructor is applied */
 static inline BA T_XOR(BA x, BA y) { int i = ba_id(x), j = ba_id(y); return ba_atom(i <= j ? __CPROVER_uninterpreted_t_xor(i, j) : __CPROVER_uninterpreted_t_xor(j, i)); }
 static inline int T_TOINT(BA x) { return x.n == 0 ? 0 : __CPROVER_uninterpreted_t_toInt(ba_id(x)); }
 static inline bool T_STARTSWITH(BA a, BA b) { if (b.n == 0 || ba_eq(a, b)) return true; if (a.n == 0) return false; return __CPROVER_uninterpreted_t_startsWith(ba_id(a), ba_id(b)); }
-/* utf8 of a string, character by character (A-UTF8-HOM); non-ASCII literal characters are not represented */
+/* utf8 of a string (A-UTF8-HOM): character by character; an ASCII character is its own encoding, and an opaque chunk x of a
+   QString and its UTF-8 encoding carry the same atom number (the two sorts never mix except through toUtf8, and UTF-8 is
+   injective, so this is just a choice of names).  Non-ASCII literal characters are not represented. */
 static inline BA T_UTF8(QS s) {
-  BA r; r.n = s.n;
-  for (int i = 0; i < TERM_L; i++) {
-    if (i < s.n) { if (s.a[i] >= 1 && s.a[i] <= 256) { MODEL_LIMIT(s.a[i] <= 128, "non-ASCII literal character in a QString term"); r.a[i] = s.a[i]; } else r.a[i] = __CPROVER_uninterpreted_t_utf8(s.a[i]); }
-    else r.a[i] = 0;
-  }
-  return r;
+  for (int i = 0; i < TERM_L; i++) MODEL_LIMIT(!(s.a[i] > 128 && s.a[i] <= 256), "non-ASCII literal character in a QString term");
+  return qs_as_ba(s);
 }
 
 /* ---- QByteArray / QString models (class types of the lowering: passed by address, returned through _ret) */
